@@ -61,7 +61,13 @@ class Box(AbstractSpace[Float[Array, " ..."], None]):
         return self.low.shape
 
     def canonical(self) -> Float[Array, " ..."]:
-        return (self.low + self.high) / 2
+        low_finite = jnp.isfinite(self.low)
+        high_finite = jnp.isfinite(self.high)
+        return jnp.where(
+            low_finite & high_finite,
+            (self.low + self.high) / 2,
+            jnp.where(low_finite, self.low, jnp.where(high_finite, self.high, 0.0)),
+        )
 
     def sample(self, *, key: Key[Array, ""], mask: None = None) -> Float[Array, " ..."]:
         bounded_key, unbounded_key, upper_bounded_key, lower_bounded_key = jr.split(
